@@ -10,6 +10,7 @@ import (
 
 	"github.com/libsv/go-bt/v2"
 	"github.com/libsv/go-bt/v2/bscript"
+	"github.com/libsv/go-bt/v2/bscript/interpreter"
 
 	"verif/sim/kernel"
 	"verif/sim/models"
@@ -104,6 +105,8 @@ func genRTx(c *kernel.RunCtx, extended bool, heavy *int) *models.RTx {
 	allowBig := *heavy > 0
 	nin := pickCount(c, allowBig)
 	nout := pickCount(c, allowBig)
+	// a draft on its way to the signers: extended format, every input spends a P2PKH output and has no unlocking script yet
+	unsignedP2PKH := extended && c.Bool(1, 6)
 	if nin > 1000 || nout > 1000 {
 		*heavy--
 	}
@@ -144,6 +147,12 @@ func genRTx(c *kernel.RunCtx, extended bool, heavy *int) *models.RTx {
 		if extended {
 			in.PrevSats = pickU64(c)
 			in.PrevScript = fillBytes(c, slen(nin > 300))
+			if c.Bool(1, 4) || unsignedP2PKH {
+				in.PrevScript = p2pkh(c.Bytes(20)) // the usual previous output
+			}
+			if unsignedP2PKH {
+				in.Script = nil // not signed yet
+			}
 		}
 		t.Ins = append(t.Ins, in)
 		c.End()
@@ -151,7 +160,15 @@ func genRTx(c *kernel.RunCtx, extended bool, heavy *int) *models.RTx {
 	for i := 0; i < nout; i++ {
 		c.Begin("out")
 		o := models.ROut{Sats: pickU64(c), Script: fillBytes(c, slen(nout > 300))}
-		switch c.Pick(10, 2, 2, 1) {
+		switch c.Pick(10, 2, 2, 1, 2) {
+		case 4: // a data carrier: (OP_FALSE) OP_RETURN followed by a few small pushes
+			o.Script = []byte{0x6a}
+			if c.Bool(1, 2) {
+				o.Script = []byte{0x00, 0x6a}
+			}
+			for k, n := 0, 1+c.Choose(4); k < n; k++ {
+				o.Script = append(o.Script, pushOf(c.Bytes(1+c.Choose(6)))...)
+			}
 		case 1: // a P2PKH template
 			o.Script = p2pkh(c.Bytes(20))
 		case 2: // a near-duplicate of an earlier output's script: same bytes, different tail
@@ -613,6 +630,28 @@ func (w *c01World) quotas(c *kernel.RunCtx) {
 	}
 	c.Count("probe.big_field_ends_stream_with_eof", 1)
 	{
+		// verifying an input whose spent script has an OP_CODESEPARATOR in front of its CHECKSIG (the signature is
+		// rubbish; the verdict does not matter): the transaction must be what it was
+		lock := append([]byte{0x61, 0xab, 0x21}, make([]byte, 33)...)
+		lock[3] = 0x02
+		lock = append(lock, 0xac)
+		m := &models.RTx{Version: 1, Ins: []models.RIn{{Vout: 1, Seq: 0xffffffff, Script: []byte{0x09, 0x30, 0x06, 0x02, 0x01, 0x01, 0x02, 0x01, 0x01, 0x41}, PrevSats: 5000, PrevScript: lock}},
+			Outs: []models.ROut{{Sats: 1, Script: p2pkh(make([]byte, 20))}}}
+		enc, _ := m.Encode(true, nil)
+		tx, err := bt.NewTxFromBytes(enc)
+		if err == nil {
+			c.Exec()
+			inspectTx(tx, 5)
+			if d := cmpTx(tx, m, true); d != "" {
+				c.Fail("aliasing", "script verification of input 0", "verifying input 0 (spent script NOP CODESEPARATOR <key> CHECKSIG) changed the transaction: %s", d)
+				return
+			}
+			if !reserialiseCheck(c, tx, m, true, "after input 0 (spent script with OP_CODESEPARATOR) was verified") {
+				return
+			}
+		}
+	}
+	{
 		one, _ := (&models.RTx{Version: 2, Lock: 7}).Encode(false, nil)
 		list := append([]byte(nil), models.VarInt(uint64(nlist))...)
 		for i := 0; i < nlist; i++ {
@@ -632,6 +671,58 @@ func (w *c01World) quotas(c *kernel.RunCtx) {
 		}
 		c.Count("probe.list_of_thousands_with_data_after_it", 1)
 	}
+}
+
+// inspectTx uses one group of read-only features of the library on tx and returns its name.
+func inspectTx(tx *bt.Tx, which int) string {
+	names := []string{"size / fee estimation", "json.Marshal", "json.Marshal(NodeJSON)", "script inspection (ToASM, ScriptType, …)", "Clone", "script verification of input 0", "String / TxID / Size"}
+	which %= len(names)
+	_ = catch(func() {
+		switch which {
+		case 0:
+			fq := bt.NewFeeQuote()
+			_, _ = tx.EstimateSize()
+			_, _ = tx.EstimateSizeWithTypes()
+			_, _ = tx.EstimateFeesPaid(fq)
+			_, _ = tx.EstimateIsFeePaidEnough(fq)
+			_, _ = tx.IsFeePaidEnough(fq)
+			_ = tx.SizeWithTypes()
+		case 1:
+			_, _ = json.Marshal(tx)
+		case 2:
+			_, _ = json.Marshal(tx.NodeJSON())
+		case 3:
+			look := func(sp *bscript.Script) {
+				if sp == nil {
+					return
+				}
+				_ = catch(func() { _, _ = sp.ToASM() })
+				_ = catch(func() { _ = sp.ScriptType() })
+				_ = catch(func() { _, _ = sp.Addresses() })
+				_ = catch(func() { _, _ = sp.PublicKeyHash() })
+				_ = catch(func() { _ = sp.IsP2PKH(); _ = sp.IsData(); _ = sp.IsMultiSigOut(); _ = sp.IsP2SH(); _ = sp.IsP2PK() })
+			}
+			for _, in := range tx.Inputs {
+				look(in.UnlockingScript)
+				look(in.PreviousTxScript)
+			}
+			for _, o := range tx.Outputs {
+				look(o.LockingScript)
+			}
+		case 4:
+			_ = tx.Clone()
+		case 5:
+			if len(tx.Inputs) > 0 && tx.Inputs[0].PreviousTxScript != nil && tx.Inputs[0].UnlockingScript != nil && len(*tx.Inputs[0].PreviousTxScript) < 2000 {
+				prev := &bt.Output{Satoshis: tx.Inputs[0].PreviousTxSatoshis, LockingScript: tx.Inputs[0].PreviousTxScript}
+				_ = interpreter.NewEngine().Execute(interpreter.WithTx(tx, 0, prev), interpreter.WithAfterGenesis(), interpreter.WithForkID())
+			}
+		default:
+			_ = tx.String()
+			_ = tx.TxID()
+			_ = tx.Size()
+		}
+	})
+	return names[which]
 }
 
 // appendEdit: a decoded transaction is edited by growing ONE of its scripts (what Script.AppendOpcodes /
@@ -681,6 +772,27 @@ func (w *c01World) appendEdit(c *kernel.RunCtx, m *models.RTx, extended bool) {
 	if d := cmpTx(tx, m, extended); d != "" {
 		c.Fail("fields", []string{"NewTxFromBytes", "Tx.ReadFrom", "Txs.ReadFrom"}[route], "a valid %s encoding (extended=%v) was decoded differently (route %d): %s", "transaction", extended, route, d)
 		return
+	}
+	// other features of the library are used on the decoded transaction; none of them is documented to change it, so
+	// it must still be what was decoded and serialise to the bytes it came from
+	feature := inspectTx(tx, c.RunIdx/16+route)
+	c.Count("probe.other_features_used_on_decoded_tx", 1)
+	if d := cmpTx(tx, m, extended); d != "" {
+		c.Fail("aliasing", feature, "using %s on a decoded transaction changed it: %s", feature, d)
+		return
+	}
+	if !reserialiseCheck(c, tx, m, extended, "after "+feature+" was used on the decoded transaction") {
+		return
+	}
+	if (c.RunIdx/16)%3 == 2 {
+		// the edit below is made on a clone
+		var cl *bt.Tx
+		if pn := catch(func() { cl = tx.Clone() }); pn != "" || cl == nil {
+			c.Fail("panic", "Tx.Clone", "Clone of a decoded transaction panicked: %s", pn)
+			return
+		}
+		tx = cl
+		c.Count("probe.append_edit_on_a_clone", 1)
 	}
 	mm := *m
 	mm.Ins = append([]models.RIn(nil), m.Ins...)
